@@ -1,6 +1,7 @@
 package main
 
 import (
+	"go/token"
 	"fmt"
 	"go/ast"
 	"go/types"
@@ -390,4 +391,154 @@ func allIn(xs, set []string) bool {
 		}
 	}
 	return true
+}
+
+// RunIssuerCoverage (C08/C05/C19): handlers read the issuer of the request from the context (IssuerFromContext); it is put
+// there by the IssuerInterceptor middleware.  Every endpoint route of op.CreateRouter (except the listed ones that never
+// read the issuer) must therefore be registered on a router on which the library installed middleware leading to the
+// IssuerInterceptor - on that router value itself, before the route, or on the router whose Group/Route/With callback the
+// route is registered in.  RegisterLegacyServer must hand such middleware to RegisterServer.
+func RunIssuerCoverage(c *Ctx, rule string, exempt []string) {
+	reachesIssuer := func(info *types.Info, e ast.Expr) bool {
+		out := map[string]bool{}
+		funcsReached(c, info, e, 4, map[string]bool{}, out, map[*types.Func]bool{})
+		return out["op.NewIssuerInterceptor"] || out["op.(*IssuerInterceptor).Handler"] || out["op.(*IssuerInterceptor).HandlerFunc"]
+	}
+	fi := c.P.Fn("op.CreateRouter")
+	if fi == nil || fi.Body == nil {
+		c.R.Fail("anchor-unresolved", "op.CreateRouter", rule, "router construction function not found")
+		return
+	}
+	info := fi.Pkg.TypesInfo
+	type useSite struct {
+		obj types.Object
+		pos token.Pos
+	}
+	var uses []useSite
+	// literal -> router object whose Group/Route/With call receives it
+	litOwner := map[*ast.FuncLit]types.Object{}
+	ast.Inspect(fi.Body, func(n ast.Node) bool {
+		call, ok := n.(*ast.CallExpr)
+		if !ok {
+			return true
+		}
+		sel, ok := unparen(call.Fun).(*ast.SelectorExpr)
+		if !ok {
+			return true
+		}
+		id, ok := unparen(sel.X).(*ast.Ident)
+		if !ok {
+			return true
+		}
+		obj := info.Uses[id]
+		switch sel.Sel.Name {
+		case "Use":
+			for _, a := range call.Args {
+				if reachesIssuer(info, a) {
+					uses = append(uses, useSite{obj, call.Pos()})
+				}
+			}
+		case "Group", "Route", "With":
+			for _, a := range call.Args {
+				if lit, ok := unparen(a).(*ast.FuncLit); ok {
+					litOwner[lit] = obj
+				}
+			}
+		}
+		return true
+	})
+	var covered func(obj types.Object, pos token.Pos, depth int) bool
+	covered = func(obj types.Object, pos token.Pos, depth int) bool {
+		if obj == nil || depth > 4 {
+			return false
+		}
+		for _, u := range uses {
+			if u.obj == obj && u.pos < pos {
+				return true
+			}
+		}
+		// obj is the router parameter of a Group/Route callback: inherit from the owning router at the point of the call
+		for lit, owner := range litOwner {
+			if lit.Type.Params != nil {
+				for _, f := range lit.Type.Params.List {
+					for _, nm := range f.Names {
+						if info.Defs[nm] == obj {
+							return covered(owner, lit.Pos(), depth+1)
+						}
+					}
+				}
+			}
+		}
+		return false
+	}
+	n := 0
+	ast.Inspect(fi.Body, func(nd ast.Node) bool {
+		call, ok := nd.(*ast.CallExpr)
+		if !ok {
+			return true
+		}
+		key, _ := providerRouteKey(info, call)
+		if key == "" || contains(exempt, key) {
+			return true
+		}
+		n++
+		var obj types.Object
+		if sel, ok := unparen(call.Fun).(*ast.SelectorExpr); ok {
+			if id, ok := unparen(sel.X).(*ast.Ident); ok {
+				obj = info.Uses[id]
+			}
+		}
+		good := covered(obj, call.Pos(), 0)
+		construct := "issuer for route " + key
+		c.R.Obl(Obligation{Rule: rule, Func: fi.Name, Construct: construct, Pos: c.P.Position(call.Pos()), Discharged: good, Nontrivial: true, How: []string{"IssuerInterceptor installed on the route's router"}})
+		if !good {
+			c.R.Find(Finding{Rule: rule, Func: fi.Name, Construct: construct, Pos: c.P.Position(call.Pos()),
+				Msg: fmt.Sprintf("the route for %s is registered on a router without the IssuerInterceptor: its handler runs with an empty issuer in the context, so token verification against the issuer (revocation, introspection, userinfo, assertions) and issuer-bound responses silently fail", key)})
+		}
+		return true
+	})
+	if n == 0 {
+		c.R.Fail("vacuity", "-", rule, "no endpoint route found in op.CreateRouter: re-point the rule")
+	}
+	// Server router: the legacy adapter hands the interceptor to RegisterServer
+	if ls := c.P.Fn("op.RegisterLegacyServer"); ls == nil || ls.Body == nil {
+		c.R.Fail("anchor-unresolved", "op.RegisterLegacyServer", rule, "function not found")
+	} else {
+		linfo := ls.Pkg.TypesInfo
+		good := false
+		var pos token.Pos = ls.Pos()
+		ast.Inspect(ls.Body, func(nd ast.Node) bool {
+			call, ok := nd.(*ast.CallExpr)
+			if !ok {
+				return true
+			}
+			if fn, _ := typeutil.Callee(linfo, call).(*types.Func); fn != nil && FuncName(fn) == "op.RegisterServer" {
+				pos = call.Pos()
+				for _, a := range call.Args {
+					if reachesIssuer(linfo, a) {
+						good = true
+					}
+					// options collected in a local slice: follow one definition
+					if id, ok := unparen(a).(*ast.Ident); ok {
+						ast.Inspect(ls.Body, func(m ast.Node) bool {
+							if as, ok := m.(*ast.AssignStmt); ok {
+								for i, l := range as.Lhs {
+									if lid, ok := unparen(l).(*ast.Ident); ok && i < len(as.Rhs) && (linfo.Defs[lid] == linfo.Uses[id] || linfo.Uses[lid] == linfo.Uses[id]) && reachesIssuer(linfo, as.Rhs[i]) {
+										good = true
+									}
+								}
+							}
+							return true
+						})
+					}
+				}
+			}
+			return true
+		})
+		c.R.Obl(Obligation{Rule: rule, Func: ls.Name, Construct: "issuer middleware handed to RegisterServer", Pos: c.P.Position(pos), Discharged: good, Nontrivial: true})
+		if !good {
+			c.R.Find(Finding{Rule: rule, Func: ls.Name, Construct: "issuer middleware handed to RegisterServer", Pos: c.P.Position(pos),
+				Msg: "op.RegisterLegacyServer no longer hands middleware leading to the IssuerInterceptor to op.RegisterServer: every LegacyServer handler would run with an empty issuer in the context"})
+		}
+	}
 }
